@@ -24,14 +24,28 @@
      at least 10^-9 away from one), and every run cross-checks the model's standard-grammar
      results against the real time.ParseDuration (a disagreement is a model defect, exit 2).
 
+   * The process ENVIRONMENT (constant Envs: names of environments - locale variables LC_ALL /
+     LC_CTYPE / LANG unset, C, POSIX, *.ISO-8859-1, *.UTF-8, an exotic TZ ...).  The statement
+     speaks of "every duration value" and of nothing else: THE TEXT OF A DURATION IS A FUNCTION OF
+     THE DURATION AND THE STYLE ONLY.  So the environment is a dimension of the formatter's cell
+     space (machine "fmt": cell x style x env; every cell in the environments FullEnvs, the
+     sub-second and extreme cells - EnvCell - in all of them) over which the text must not vary - Format has no
+     environment argument, and invariant EnvFree says that what the writer produced in
+     environment env is Format(cell, style).  ChunksIn(env, c, style) is what the writer writes;
+     for the property (LocaleMicro = FALSE) it is Chunks(c, style).  LocaleMicro = TRUE is the
+     witness: the micro sign is spelled by locale - "u" where the locale (NoUTF8) is not UTF-8 -
+     while the sub-second path keeps reserving the two bytes of U+00B5, so a stale byte ("x")
+     stays behind the "u"; that run must violate EnvFree and RoundTrip.
+
    THREE MACHINES over the single variable st (constant Machine selects Init/Next):
-   * "fmt":   Init picks a cell of Cells and a style; Write moves one chunk into the buffer,
+   * "fmt":   Init picks a cell of Cells, a style and an environment; Write moves one chunk into the buffer,
               w -= bytes.   Invariants:
                 InBuffer   - the write index never leaves the array          ("never panics")
                 RoundTrip  - the finished text parses (library grammar) to exactly the cell
                 StdReads   - a finished text without day unit is read identically by the
                              standard grammar
                 FmtShape   - the machine's output is Format(cell, style), its bytes Need(..)
+                EnvFree    - ... in every environment (the text does not depend on it)
               Run with BufLen = 33 the invariants hold; with the library's real size 32 InBuffer
               fails exactly for the 33-byte texts (witness run of the check).
    * "parse": Init is the empty input; FeedBoth(c) feeds symbol c to the library parser and to the
@@ -78,7 +92,11 @@ CONSTANTS BufLen,     \* size in bytes of the formatter's scratch array
           HCells,     \* hist machine: sequence of cells the formatter is called with
           HLits,      \* hist machine: sequence of unrelated strings (symbol sequences) that are parsed
           MaxCalls,   \* hist machine: longest history
-          Aliased     \* hist machine: FALSE = texts are values; TRUE = witness (shared scratch handed out)
+          Aliased,    \* hist machine: FALSE = texts are values; TRUE = witness (shared scratch handed out)
+          Envs,       \* names of the process environments the formatter / parser run in
+          NoUTF8,     \* those of them whose locale variables do not select UTF-8
+          FullEnvs,   \* those in which machine "fmt" explores EVERY cell (in the others: the EnvCell ones)
+          LocaleMicro \* FALSE = the text does not depend on the environment; TRUE = witness (micro sign by locale)
 
 VARIABLE st
 
@@ -244,15 +262,16 @@ FracDigits(v, prec) ==
 
 Tok(n, unit) == IF n > 0 THEN <<Digits(n) \o unit>> ELSE <<>>
 
-\* chunks in text order (the implementation writes them last to first)
-Chunks(c, style) ==
+\* chunks in text order (the implementation writes them last to first); mSub / mTok: how the micro
+\* prefix is spelled in the one-number form below a second (a chunk of its own) and in a compact token
+ChunksWith(c, style, mSub, mTok) ==
     LET sub  == c.ms * 1000000 + c.us * 1000 + c.ns
         sign == IF c.neg THEN <<(<<"-">>)>> ELSE <<>>
     IN IF c.d = 0 /\ c.h = 0 /\ c.m = 0 /\ c.s = 0
        THEN \* below one second both styles print one number in the largest non-zero unit
             sign \o (IF sub = 0 THEN << <<"0">>, <<"s">> >>
                      ELSE IF c.ms > 0 THEN << Digits(c.ms) \o FracDigits(c.us * 1000 + c.ns, 6), <<"m">>, <<"s">> >>
-                     ELSE IF c.us > 0 THEN << Digits(c.us) \o FracDigits(c.ns, 3), <<"micro">>, <<"s">> >>
+                     ELSE IF c.us > 0 THEN << Digits(c.us) \o FracDigits(c.ns, 3), mSub, <<"s">> >>
                      ELSE << Digits(c.ns), <<"n">>, <<"s">> >>)
        ELSE IF style = "frac"
        THEN LET hh == c.d * 24 + c.h IN
@@ -260,7 +279,14 @@ Chunks(c, style) ==
                  \o (IF hh > 0 \/ c.m > 0 THEN <<Digits(c.m) \o <<"m">> >> ELSE <<>>)
                  \o << Digits(c.s), FracDigits(sub, 9), <<"s">> >>
        ELSE sign \o Tok(c.d, <<"d">>) \o Tok(c.h, <<"h">>) \o Tok(c.m, <<"m">>) \o Tok(c.s, <<"s">>)
-                 \o Tok(c.ms, <<"m", "s">>) \o Tok(c.us, <<"micro", "s">>) \o Tok(c.ns, <<"n", "s">>)
+                 \o Tok(c.ms, <<"m", "s">>) \o Tok(c.us, mTok \o <<"s">>) \o Tok(c.ns, <<"n", "s">>)
+
+\* THE text of a cell: no environment argument
+Chunks(c, style) == ChunksWith(c, style, <<"micro">>, <<"micro">>)
+\* what the writer writes in environment env (witness: "u" - and, below a second, the second of the two
+\* reserved bytes left as it was - where the locale is not UTF-8)
+ChunksIn(env, c, style) ==
+    IF LocaleMicro /\ env \in NoUTF8 THEN ChunksWith(c, style, <<"u", "x">>, <<"u">>) ELSE Chunks(c, style)
 
 RECURSIVE Flat(_)
 Flat(ch) == IF ch = <<>> THEN <<>> ELSE Head(ch) \o Flat(Tail(ch))
@@ -269,8 +295,12 @@ Need(c, style)   == Bytes(Format(c, style))             \* bytes the text occupi
 
 ----------------------------------------------------------------------------
 (* machine "fmt": the right-to-left writer *)
-FmtInit == \E c \in Cells, sty \in Styles :
-              st = [cell |-> c, style |-> sty, todo |-> Chunks(c, sty), w |-> BufLen, out |-> <<>>]
+\* cells explored in every environment: everything below one second (all ms/us/ns combinations) and
+\* every cell whose d, h, m, s are 0 or the largest value of their sets (the extremes: longest texts)
+EnvCell(c) == \A k \in {"d", "h", "m", "s"} : c[k] = 0 \/ \A x \in CellSets[k] : x <= c[k]
+FmtInit == \E c \in Cells, sty \in Styles, env \in Envs :
+              /\ env \in FullEnvs \/ EnvCell(c)
+              /\ st = [cell |-> c, style |-> sty, env |-> env, todo |-> ChunksIn(env, c, sty), w |-> BufLen, out |-> <<>>]
 Write == /\ Machine = "fmt"
          /\ st.todo # <<>>
          /\ LET ch == st.todo[Len(st.todo)]
@@ -281,6 +311,10 @@ InBuffer  == st.w >= 0
 RoundTrip == FmtDone => ParseSyms(st.out, LibUnits) = CellRes(st.cell)
 StdReads  == FmtDone /\ (\A i \in 1..Len(st.out) : st.out[i] # "d") => ParseSyms(st.out, StdUnits) = CellRes(st.cell)
 FmtShape  == FmtDone => st.out = Format(st.cell, st.style) /\ BufLen - st.w = Need(st.cell, st.style)
+\* the text is a function of the duration and the style only: whatever the environment, the finished
+\* text is THE text of the cell (and so reads back as the cell, by RoundTrip)
+EnvFree   == FmtDone => st.out = Format(st.cell, st.style) /\ ParseSyms(st.out, LibUnits) = CellRes(st.cell)
+ASSUME EnvConstants == NoUTF8 \subseteq Envs /\ FullEnvs \subseteq Envs /\ FullEnvs # {} /\ LocaleMicro \in BOOLEAN
 
 (* machine "parse": library and standard parser in lock step *)
 ParseInit == st = [n |-> 0, lib |-> Blank, std |-> Blank]
